@@ -142,6 +142,8 @@ impl OpOut {
 }
 
 pub struct Env<'d> {
+    /// Files named by `Op::Decoy`, loaded up front (path -> bytes).
+    pub decoys: BTreeMap<String, Rc<Vec<u8>>>,
     pub mode: Mode,
     pub sim: Option<SimProvider>,
     pub image: &'d [u8],
@@ -890,6 +892,41 @@ impl<'e, 'd> World<'e, 'd> {
                     Err(e) => OpOut::err(e),
                 }
             }
+            Op::Decoy { font, index, cut } => {
+                let Some(data) = self.env.decoys.get(font) else {
+                    return OpOut::errs("decoy", "file not available".into());
+                };
+                let bytes: &[u8] = match cut {
+                    Some(c) => &data[..(*c).min(data.len())],
+                    None => &data[..],
+                };
+                let fd = match ReadScope::new(bytes).read::<FontData<'_>>() {
+                    Ok(fd) => fd,
+                    Err(e) => return OpOut::err(e),
+                };
+                let provider = match fd.table_provider(*index) {
+                    Ok(p) => p,
+                    Err(e) => return OpOut::err(e),
+                };
+                let mut tags = provider.table_tags().unwrap_or_default();
+                tags.sort_unstable();
+                tags.dedup();
+                tags.truncate(96);
+                let mut h = Fnv::new();
+                let mut errs = 0;
+                for t in &tags {
+                    h.write_u64(u64::from(*t));
+                    match provider.table_data(*t) {
+                        Ok(Some(d)) => h.write(&d),
+                        Ok(None) => h.write(b"none"),
+                        Err(e) => {
+                            errs += 1;
+                            h.write(format!("{:?}", e).as_bytes())
+                        }
+                    }
+                }
+                OpOut::ok(format!("tables={} errs={} fnv={:016x}", tags.len(), errs, h.finish()))
+            }
             Op::Reconstruct => {
                 let provider = match self.env.provider() {
                     Ok(p) => p,
@@ -1127,6 +1164,22 @@ pub fn prepare(trace: &Trace, corpus: &mut Corpus) -> Result<Prepared, String> {
                 font_len,
             })
         }
+        Mode::Image if trace.wrap_woff2 => {
+            let mut d = pristine_disk(&file, trace.font_index)?;
+            for s in &trace.surgery {
+                surgery::apply(&mut d, s)?;
+            }
+            let applied = disk::apply_to_disk(&mut d, &trace.faults);
+            // ProviderErr faults have no file representation
+            let image = disk::build_woff2(&d);
+            let font_len = image.len();
+            Ok(Prepared {
+                disk: None,
+                image,
+                applied,
+                font_len,
+            })
+        }
         Mode::Image => {
             let mut image: Vec<u8>;
             let mut applied = vec![false; trace.faults.len()];
@@ -1229,7 +1282,16 @@ pub fn run_trace(
     };
     let fault_free = trace.faults.is_empty();
     let sim = prepared.disk.clone().map(SimProvider::new);
+    let mut decoys = BTreeMap::new();
+    for op in &trace.ops {
+        if let Op::Decoy { font, .. } = op {
+            if let Ok(d) = corpus.get(font) {
+                decoys.insert(font.clone(), d);
+            }
+        }
+    }
     let env = Env {
+        decoys,
         mode: trace.mode.clone(),
         sim: sim.clone(),
         image: &prepared.image,
@@ -1263,6 +1325,8 @@ pub fn run_trace(
     // distinct <signature, op kind, signature'> transitions.
     let mut atoms: BTreeSet<String> = BTreeSet::new();
     let mut state_sig: u64 = 0;
+    // ops still to be repeated on a fresh thread after the last decoy (the decoy itself + 2)
+    let mut decoy_budget = 0u32;
     for (i, op) in trace.ops.iter().enumerate() {
         write_status(opts, i as i64);
         if prop == "C03" {
@@ -1490,7 +1554,7 @@ pub fn run_trace(
         // ---- oracle C09 (tables reconstructed from WOFF2): mutually consistent and loadable.
         // Only for pristine WOFF2 files: the relations are between tables the decoder rebuilds
         // (glyf, loca, hmtx) and tables it passes through from a well-formed source.
-        if prop == "C09" && fault_free && trace.mode == Mode::Image && trace.font.ends_with(".woff2") {
+        if prop == "C09" && fault_free && trace.mode == Mode::Image && (trace.font.ends_with(".woff2") || trace.wrap_woff2) {
             if let (Ok(_), Some(tables)) = (&result, extra.recon.as_ref()) {
                 stats.bump("c09.validated.reconstructed");
                 // known-tag indices: 3 = hmtx, 10 = glyf
@@ -1592,9 +1656,22 @@ pub fn run_trace(
         // ---- oracle C03 (pure operations): byte-identical on every run. The op is repeated
         // on freshly spawned threads (std's RandomState draws new keys per thread, so any
         // dependence on HashMap iteration order shows up as differing output).
-        if prop == "C03" && !stop && (op.is_writer() || matches!(op, Op::Load { .. })) {
+        if matches!(op, Op::Decoy { .. }) {
+            decoy_budget = 2;
+        }
+        let decoy_seen = decoy_budget > 0;
+        decoy_budget = decoy_budget.saturating_sub(1);
+        // After a decoy every op is repeated this way: the same-thread reference above shares any
+        // thread-wide state with the long-lived client, a fresh thread does not.
+        if prop == "C03"
+            && !stop
+            && !matches!(op, Op::FontNew | Op::SetImageFilter { .. })
+            && (op.is_writer() || matches!(op, Op::Load { .. } | Op::Decoy { .. }) || decoy_seen)
+        {
+            let cfg_now = world.config();
             if let Ok(main_out) = &result {
-                for rep in 0..2 {
+                let reps = if op.is_writer() || matches!(op, Op::Load { .. } | Op::Decoy { .. }) { 2 } else { 1 };
+                for rep in 0..reps {
                     let t2 = trace.clone();
                     let op2 = op.clone();
                     let root = corpus.root().to_string();
@@ -1606,7 +1683,14 @@ pub fn run_trace(
                                 let mut c2 = Corpus::new(&root);
                                 let prepared = prepare(&t2, &mut c2).map_err(|e| e)?;
                                 let sim = prepared.disk.clone().map(SimProvider::new);
+                                let mut decoys = BTreeMap::new();
+                                if let Op::Decoy { font, .. } = &op2 {
+                                    if let Ok(d) = c2.get(font) {
+                                        decoys.insert(font.clone(), d);
+                                    }
+                                }
                                 let env = Env {
+                                    decoys,
                                     mode: t2.mode.clone(),
                                     sim,
                                     image: &prepared.image,
@@ -1614,7 +1698,7 @@ pub fn run_trace(
                                     font_len: prepared.font_len,
                                     fault_free: t2.faults.is_empty(),
                                 };
-                                let mut w = World::new(&env);
+                                let mut w = World::with_config(&env, cfg_now);
                                 let mut e = Extra::default();
                                 let out = w.exec(&op2, &mut e);
                                 Ok::<(String, String), String>((out.class, out.canon))
